@@ -993,6 +993,12 @@ def sets_by_position(dump):
     return out
 
 
+def const_oracle_cases(cases):
+    """the K3 predicate/assertion oracle depends on token ids (through peek), which change when the token
+    declarations are permuted; for comparisons across permutations the answers are made constant"""
+    return [(e, t, ('1' if b.count('1') * 2 > len(b) else '0') if b else '') for e, t, b in cases]
+
+
 def check_C15(work, args):
     import subprocess
     from concurrent.futures import ThreadPoolExecutor
@@ -1069,7 +1075,7 @@ def check_C15(work, args):
         base, it2 = pair
         key = id(base)
         if key not in inputs_cache:
-            inputs_cache[key] = std_cases(ck, base, 12)
+            inputs_cache[key] = const_oracle_cases(std_cases(ck, base, 12))
         cases = inputs_cache[key]
         ra = k3.run_cases(base, cases)
         rb = k3.run_cases(it2, cases)
@@ -1085,7 +1091,7 @@ def check_C15(work, args):
     # inputs are drawn sequentially (one PRNG), runs are parallel
     for p_ in pairs:
         if id(p_[0]) not in inputs_cache:
-            inputs_cache[id(p_[0])] = std_cases(ck, p_[0], 12)
+            inputs_cache[id(p_[0])] = const_oracle_cases(std_cases(ck, p_[0], 12))
     with ThreadPoolExecutor(16) as ex:
         for o in ex.map(behav, pairs):
             failures += o
